@@ -1,9 +1,9 @@
 (** C15 — every strong handle kind keeps the actor fully functional, not just reachable.
     Statements only; proofs live in Inv/. Everything the property lists — Context::stop and
     restart, timers, weak upgrades — is decided in the model by one number, the count of
-    references to the waiting closure, and every strong kind holds one. [partial]: see C05 for
-    the accounting invariant that is validated by correspondence rather than proved. *)
-From Hannibal Require Import Model.Sys Inv.C05.
+    references to the waiting closure, every strong kind holds one, and (accounting invariant,
+    Inv/Refs.v) in every reachable state the number covers every strong handle on record. *)
+From Hannibal Require Import Model.Sys Inv.C05 Inv.Refs Inv.Refs2.
 
 Theorem C15_every_strong_kind_holds_the_waiting_closure :
   forall k, is_weak k = false -> fst (holds k) = 1.
@@ -33,3 +33,12 @@ Theorem C15_weak_handles_upgrade_while_held :
     /\ ok = negb (Nat.eqb (a_tx x) 0) /\ s' = s.
 Proof. exact upgrade_answer. Qed.
 Print Assumptions C15_weak_handles_upgrade_while_held.
+
+(** In every reachable state, whatever the kind of a strong handle that still exists — Addr,
+    OwningAddr, Sender or Caller — the addressed actor's count is not zero: weak handles upgrade,
+    Context::stop / restart find their closure, the mailbox is open for its timers. *)
+Theorem C15_any_strong_handle_suffices :
+  forall tr s h a k x, run init tr = Acc s -> handles s h = Some (a, k) -> is_weak k = false ->
+  actors s a = Some x -> upgradable x = true /\ force_alive x = true /\ closed x = false.
+Proof. exact strong_handle_keeps_functional. Qed.
+Print Assumptions C15_any_strong_handle_suffices.
